@@ -192,4 +192,88 @@ example :
 example : feasibleB 5 1 1 0 = false ∧ feasibleB 5 1 1 1 = true ∧ feasibleB 5 1 1 (-1) = false
     ∧ feasibleB 5 1 1 (-2) = true := by decide
 
+/-! ### Non-vacuity (review): every hypothesis-carrying theorem instantiated at a concrete non-trivial instance -/
+
+private def exStmts : List (Assign (Nat → Nat) Nat Nat) :=
+  [⟨fun t => t.toNat, fun u _ => some (u 0 + 1)⟩, ⟨fun t => t.toNat + 1, fun u t => some (u t.toNat * 10)⟩]
+
+private theorem exStmts_targets (c : Nat) (h : ¬ (c = 2 ∨ c = 3)) : ∀ a ∈ exStmts, a.target 2 ≠ c := by
+  intro a ha e
+  unfold exStmts at ha
+  cases ha with
+  | head => exact h (Or.inl e.symm)
+  | tail _ ha =>
+    cases ha with
+    | head => exact h (Or.inr e.symm)
+    | tail _ ha => cases ha
+
+/-- `runPass_frame` (cell 7 is no target at `t = 2`, for every start state) and `runPass_last` (the second statement
+    stores `u[2] * 10` computed on the store left by the first). -/
+example (u : Nat → Nat) : funCells.get (runPass funCells 2 exStmts u).1 7 = funCells.get u 7 :=
+  runPass_frame funCells 2 exStmts u 7 (exStmts_targets 7 (by decide))
+example : funCells.get (runPass funCells 2 ([⟨fun t => t.toNat, fun u _ => some (u 0 + 1)⟩] ++
+      [⟨fun t => t.toNat + 1, fun u t => some (u t.toNat * 10)⟩]) (fun _ => 4)).1 3 = 50 :=
+  runPass_last funCells 2 [⟨fun t => t.toNat, fun u _ => some (u 0 + 1)⟩]
+    ⟨fun t => t.toNat + 1, fun u t => some (u t.toNat * 10)⟩ (fun _ => 4) 50 (by decide) (by decide)
+
+/-- A model whose evaluation pass IS `runPass` of the two generated statements, with a real offset copy. -/
+private def exIC : Interp (Nat → Nat) Nat where
+  lags := 0
+  leads := 0
+  check u t := u t.toNat
+  allFinite _ := true
+  close a b := a == b
+  zeroNF v := v
+  copyOffset u t off := funCells.set u t.toNat (u (t + off).toNat)
+  before _ u _ := (u, false)
+  eval _ u t _ := runPass funCells t exStmts u
+  after _ u _ _ := (u, false)
+
+/-- `solveT_cells_frame` (offset −1: `K` = cell 2, `W` = cells 2, 3) and `solveT_cells_frame_no_offset`, composed
+    with `runPass_frame`: solving period 2 of 5 leaves cell 7 alone, from every world. -/
+example (w : World (Nat → Nat)) :
+    funCells.get (solveT exIC { offset := -1 } 5 2 w).1.user 7 = funCells.get w.user 7 :=
+  solveT_cells_frame funCells exIC { offset := -1 } 5 2 (fun c => c = 2 ∨ c = 3) (fun c => c = 2) w
+    (fun u c hK => funCells.get_set_other u 2 c _ hK) (fun _ _ => rfl)
+    (fun u _ c hW => runPass_frame funCells 2 exStmts u c (exStmts_targets c hW)) (fun _ _ _ => rfl) 7 (by decide)
+example (w : World (Nat → Nat)) : funCells.get (solveT exIC {} 5 2 w).1.user 7 = funCells.get w.user 7 :=
+  solveT_cells_frame_no_offset funCells exIC {} 5 2 (fun c => c = 2 ∨ c = 3) w rfl (fun _ _ => rfl)
+    (fun u _ c hW => runPass_frame funCells 2 exStmts u c (exStmts_targets c hW)) (fun _ _ _ => rfl) 7 (by decide)
+/-- … and the solve does run passes there (cell 3 becomes 50 from the all-4 state). -/
+example : (solveT exIC {} 5 2 ⟨fun _ => 4, List.replicate 5 .unsolved, List.replicate 5 (-1)⟩).1.user 3 = 50 := by
+  decide
+
+/-- `series_frame`: solving period 2 of 5 leaves `status[3]` / `iterations[3]` alone. -/
+example (w : World Nat) : (solveT C02.exI {} 5 2 w).1.status[3]? = w.status[3]? ∧
+    (solveT C02.exI {} 5 2 w).1.iters[3]? = w.iters[3]? :=
+  series_frame C02.exI {} 5 2 w 3 (by decide)
+
+private def exILag : Interp Unit Unit :=
+  { lags := 1, leads := 1, check := fun _ _ => (), allFinite := fun _ => true, close := fun _ _ => true,
+    zeroNF := id, copyOffset := fun u _ _ => u, before := fun _ u _ => (u, false),
+    eval := fun _ u _ _ => (u, false), after := fun _ u _ _ => (u, false) }
+
+/-- `rejected_unchanged`: each of its four disjuncts is satisfiable. -/
+example (w : World Nat) : (solveT C02.exI { minIter := 10, maxIter := 5 } 5 2 w).1 = w :=
+  rejected_unchanged C02.exI _ 5 2 w (Or.inl (by decide))
+example (w : World Unit) : (solveT exILag {} 5 (-1) w).1 = w :=
+  rejected_unchanged exILag _ 5 (-1) w (Or.inr (Or.inl ⟨by decide, by unfold Feasible; decide⟩))
+example (w : World Nat) : (solveT C02.exI { offset := 1 } 5 (-1) w).1 = w :=
+  rejected_unchanged C02.exI _ 5 (-1) w (Or.inr (Or.inr (Or.inl ⟨by decide, by decide, by decide⟩)))
+example : (solveT C06.exI { errors := .raise } 3 1 ⟨99, [.unsolved, .solved, .unsolved], [-1, 4, -1]⟩).1 =
+    ⟨99, [.unsolved, .solved, .unsolved], [-1, 4, -1]⟩ :=
+  rejected_unchanged C06.exI _ 3 1 _
+    (Or.inr (Or.inr (Or.inr ⟨by unfold Accepted Feasible; decide, rfl, rfl, by decide⟩)))
+
+/-- `reads_in_span` / `read_index_no_wrap`: `LAGS = LEADS = 1`, `n = 5`, `t = -2` (position 3), lead `+1` reads
+    position 4 (Python index `-1`), not a wrapped one. -/
+example : 0 ≤ cellPos 5 (-2) 1 ∧ cellPos 5 (-2) 1 < (5 : Nat) :=
+  reads_in_span 5 1 1 (-2) 1 (by decide) (by decide) (by decide)
+example : pyIndex 5 (-2 + 1) = some 4 :=
+  read_index_no_wrap 5 1 1 (-2) 1 (by decide) (by decide) (by decide) (by decide) (by decide)
+
+/-- `infeasible_period_rejected`: a lag of 1 at period 0 of 5 (would read index −1 = the LAST period). -/
+example (w : World Unit) : solveT exILag {} 5 0 w = (w, .indexError) :=
+  infeasible_period_rejected exILag {} 5 0 (-1) w (by decide) (by decide) (by decide) (by decide) (by decide)
+
 end Fsic.C04
